@@ -53,9 +53,10 @@ def laws(st, kind, ex, ms, r_raise, r_soft):
 
 
 def classify(st, kind, ex, ms, bad):
-    # known finding D16: the OrderCancelReject table is a single default row
-    if kind == "9" and set(bad) <= {"absorbing", "no_pending_new", "created_accepts"}:
-        return "D16-cancel-reject-row"
+    # known finding D16 (what the repair of the table left, pinned by tests): an OrderCancelReject reporting
+    # PENDING_NEW moves an acknowledged, unfinished order back to PENDING_NEW
+    if kind == "9" and bad == ["no_pending_new"] and ms == "A" and st not in FIN:
+        return "D16-cancel-reject-pending-new"
     return None
 
 
